@@ -1,9 +1,84 @@
 import Olla.Driver.Util
+import Olla.Model.Passthrough
+import Olla.Model.Handler
+import Olla.Spec.C14
 
 namespace Olla.Driver.C14
-open Lean Olla.Driver
+open Lean Olla.Driver Olla.Model.Retry Olla.Model.Passthrough Olla.Spec.C14
 
-/-- placeholder until the C14 driver is written -/
-def main : IO Unit := pure ()
+/-- "the endpoint's own profile declares native Anthropic support": the regenerated
+    `GetAnthropicSupport(NormalizeProviderName(type))` column — independent of the lookup the handler performs. -/
+def resolvedNative (t : String) : Bool :=
+  match Olla.Gen.Profiles.endpointTypes.find? (fun r => r.1 == t) with
+  | some r => r.2.2.2.1
+  | none => false
+
+def fmtOf (s : String) : Fmt := if s == "anthropic" then .anthropic else if s == "openai" then .openai else .other
+
+def fmtStr : Fmt → String
+  | .anthropic => "anthropic" | .openai => "openai" | .other => "other"
+
+def showD (d : Delivery) : String := s!"(ep {d.ep} {d.path} {fmtStr d.fmt} identical={d.identical})"
+
+def handle (j : Json) : IO Unit := do
+  let case := jnat (jget j "case")
+  let sc := jget j "scenario"
+  let impl := jget j "impl"
+  if jstr (jget impl "start_err") != "" then
+    emit case false true "start-error" "" (jstr (jget impl "start_err")); return
+  let types := jstrList (jget sc "types")
+  let enabled := jbool (jget sc "enabled")
+  let refuse := (jarr (jget sc "refuse")).map jbool
+  let invalid := jbool (jget sc "invalid")
+  let eps : List Ep := types.zipIdx.map (fun (t, i) => ⟨i, t⟩)
+  let refuses (i : Nat) : Bool := refuse.getD i false
+  let outcome (i : Nat) : Attempt := if refuses i then attemptOf "refuse" false default 0 else .ok ⟨200, [], []⟩
+  let select (l : List Nat) : Option Nat := l.head?      -- priority balancer, priorities fall with the index
+  let clientBody : List UInt8 := [1]                      -- bodies are compared through `identical`; the translation changes the bytes
+  let r := run enabled genSupport (fun b => 0 :: b) (!invalid) select outcome eps clientBody
+  let mObs := r.observed enabled (fun i => resolvedNative (types.getD i "")) clientBody
+  -- a refused connection never reaches the backend's recorder
+  let mDeliveries := mObs.deliveries.filter (fun d => !refuses d.ep)
+  let deliveries : List Delivery := (jarr (jget impl "deliveries")).map (fun d =>
+    ⟨jnat (jget d "ep"), jstr (jget d "path"), fmtOf (jstr (jget d "shape")), jbool (jget d "identical")⟩)
+  let modeS := jstr (jget impl "mode")
+  let modeHeader : Option String := if modeS == "" then none else some modeS
+  let cStatus := jnat (jget impl "status")
+  -- the client's status is the C05 handler model's business (incl. its pinned-defect variants)
+  let hmode : Olla.Model.Handler.Mode := if r.decision.isPassthrough then .passthrough (r.decision.targets.map (·.id)) else .translate
+  let hproblem : Option Olla.Model.Handler.ReqProblem := if invalid then some .invalid else none
+  let hrq : Olla.Model.Handler.Req := { route := .anthropic, stream := jbool (jget sc "stream"), mode := hmode, problem := hproblem }
+  let houtcome (i : Nat) : Attempt := if refuses i then attemptOf "refuse" false default 0 else .ok ⟨200, [("Content-Type", "application/json")], [1]⟩
+  let mStatus : Nat := (Olla.Model.Handler.serve Olla.Model.Handler.active hrq (fun _ => .completion) 1 select houtcome (eps.map (·.id))).status
+  let mStats : Nat × Nat := if r.decision.isPassthrough then (1, 0) else (0, 1)
+  let stats := (jnat (jget impl "stat_passthrough"), jnat (jget impl "stat_translation"))
+  let mNative := (match r.result with | .served _ => true | _ => false) && r.decision.isPassthrough && !invalid
+  let agree := deliveries == mDeliveries && modeHeader == r.modeHeader && cStatus == mStatus && stats == mStats &&
+    jbool (jget impl "native_answer") == mNative
+  -- the property on the implementation's own observations
+  let nativeOf : Nat → Bool := fun i => resolvedNative (types.getD i "")
+  let obs : Observed := { enabled := enabled, native := nativeOf, deliveries := deliveries, modeHeader := modeHeader, proxied := (!invalid) }
+  let spec := holds obs
+  let sig := if spec then "" else
+    if !noAnthropicToNonNative obs then "anthropic-body-to-endpoint-without-native-support"
+    else if !passthroughOnlyWhereAllowed obs then
+      (if !enabled then "passthrough-while-disabled"
+       else if deliveries.any (fun d => untranslated d && !d.identical) then "passthrough-body-not-byte-identical"
+       else "passthrough-to-wrong-path")
+    else if !translatedToChatPath obs then "translated-request-not-on-openai-chat-path"
+    else if !noMixing obs then "passthrough-and-translation-mixed-in-one-request"
+    else "x-olla-mode-header-wrong"
+  let cls := String.join (types.map (fun t => if nativeBy genSupport t then "N" else if resolvedNative t then "a" else "o"))
+  let branch := (if invalid then "rejected" else if r.decision.isPassthrough then "passthrough" else "translation") ++
+    (if (selectedList r.trace).length > 1 then "-failover" else "") ++
+    (match r.result with | .exhausted => "-exhausted" | _ => "") ++ ":" ++ cls
+  let note := if spec && agree then "" else
+    s!"types {types} passthrough_enabled {enabled} refuse {refuse} invalid {invalid}: client {cStatus} X-Olla-Mode '{modeS}', backends got {deliveries.map showD}, stats {stats}; model {mStatus} mode {r.modeHeader}, {mDeliveries.map showD}, stats {mStats}"
+  emit case agree spec branch sig note
+    (Json.mkObj [("decision", toJson (if r.decision.isPassthrough then "passthrough" else "translation")),
+      ("targets", toJson (r.decision.targets.map (·.id))), ("result", toJson (reprStr r.result)),
+      ("declared_path_mismatch", toJson (declaredPathMismatch.map (fun p => p.1 ++ ":" ++ p.2)))])
+
+def main : IO Unit := do forLines (← IO.getStdin) handle
 
 end Olla.Driver.C14
